@@ -1,6 +1,6 @@
 (* C02 — no double spend or double resolution. *)
 From Coq Require Import ZArith List Bool.
-From Sia Require Import Prim.Result Prim.Tok Policy.Model Ledger.Types Ledger.Mid Ledger.Validate Ledger.Apply Ledger.Proofs Ledger.Spends Ledger.SpendsV1.
+From Sia Require Import Prim.Result Prim.Tok Policy.Model Ledger.Types Ledger.Mid Ledger.Validate Ledger.Apply Ledger.Proofs Ledger.Spends Ledger.SpendsV1 Ledger.SpendsSF.
 Import ListNotations.
 Open Scope Z_scope.
 
@@ -64,3 +64,9 @@ Theorem C02_mixed_block_no_double_spend : forall H net vt pt se sd s b, validate
   NoDup (flat_map v1_sci_ids (b_txns b) ++ flat_map sci_ids (b_v2txns b)).
 Proof. exact mixed_block_no_double_spend. Qed.
 Print Assumptions C02_mixed_block_no_double_spend.
+
+(* ... and no siafund element *)
+Theorem C02_mixed_block_no_double_spend_siafunds : forall H net vt pt se sd s b, validate_block H net vt pt se sd s b = Ok tt ->
+  NoDup (flat_map v1_sfi_ids (b_txns b) ++ flat_map sfi_ids (b_v2txns b)).
+Proof. exact mixed_block_no_double_spend_sf. Qed.
+Print Assumptions C02_mixed_block_no_double_spend_siafunds.
